@@ -20,4 +20,11 @@ CHECKS = {
         note="Holds for the enumerated alphabet/length bounds only; float64 reference arithmetic as written in the statement; arrays longer than the bound only through the 2-symbol pattern family.",
         technique=LAT + " of data tuples x binning options x engines against a reference partition",
     ),
+    "C01": dict(
+        engine="lattice+histories",
+        text="Every table of the bounded dtype lattice (16 kinds x 4 sub-array shapes x 2 byte orders; 1-, 2-, 3- and 16-field tables) with boundary cell values, every header of the key x value lattice, every field name of the name lattice, through every writer x reader entry point, is written and read back on the real code and compared bit-for-bit with the written table, the raw file bytes and the header (type-identical); plus all read sequences up to depth 3 on one open handle against fresh handles.",
+        design_ref="DESIGN.md 3 C01",
+        note="Bounded alphabets (<=16 fields, <=2 user header keys, rows<=17); files live on tmpfs; offset for header-less readers derived from file length.",
+        technique=LAT + " of tables x headers x names x writer x reader, plus BFS over read histories on one handle",
+    ),
 }
